@@ -32,7 +32,7 @@ m = {
                  'kind_free_text': 'syn-based extractor (extractor/) re-reads /repo/src, applies logged rewrites, weaves contracts/*.vc; Verus 0.2026.09.13 discharges every obligation; lib/pipeline.py maps failures to named obligations'}],
     'checks': checks,
     'not_applicable': na,
-    'notes': 'exit 2 from a check means undecided (lost anchor / unsupported construct / solver limit), never an alarm. See DESIGN.md.',
+    'notes': 'exit 0: every obligation recorded for the pinned tree is discharged on the current tree. exit 1 + VIOLATION line: an obligation of the pinned tree fails in a unit whose proof context is intact (all callees still have their contracts or were written out, no new loop, no unspecified std call - rule T1, DESIGN.md 3.6). exit 2 means undecided, never an alarm: lost anchor / construct outside the subset / solver limit / a failed proof in a unit whose proof context lost information / the code-generating attributes of an item with an assumed contract changed (assumption guard). See DESIGN.md sections 3.6 and 9.',
 }
 json.dump(m, open(os.path.join(HERE, 'MANIFEST.json'), 'w'), indent=1)
 print('claimed', [c['property_id'] for c in checks], 'not_applicable', [n['property_id'] for n in na])
